@@ -308,7 +308,7 @@ def _mk():
     add("mo_touch", "{m}.map_overlap(uf.touch, {0}, depth=1, boundary='reflect', dtype={0}.dtype)", "{0}", cond="a0.ndim>=1 and min(a0.shape)>=1", fam="touch", rewrite=False)
     add("mo_touch_nodtype", "{m}.map_overlap(uf.touch, {0}, depth=1, boundary='none')", "{0}", cond="a0.ndim>=1 and min(a0.shape)>=1", fam="touch", rewrite=False)
     add("bw_touch", "{m}.blockwise(uf.touch, tuple(range({0}.ndim)), {0}, tuple(range({0}.ndim)), dtype={0}.dtype)", "{0}", fam="touch", rewrite=False)
-    add("red_touch", "{m}.reduction({0}, uf.touch_chunk, uf.touch_agg, axis=0, dtype='f8')", "{0}.sum(axis=0)", exact=False, cond="a0.ndim>=1 and a0.dtype.kind=='f'", fam="touch", rewrite=False)
+    add("red_touch", "{m}.reduction({0}, uf.touch_chunk, uf.touch_agg, axis=0, dtype={0}.dtype)", "{0}.sum(axis=0)", exact=False, cond="a0.ndim>=1 and a0.dtype.kind=='f'", fam="touch", rewrite=False)
 
     # ---- more parameter-variant siblings (tokenizer / hand-built-name collisions)
     add("sum_se3", "{m}.sum({0}, split_every=3)", "{m}.sum({0})", exact=False, fam="red", rewrite=False)
